@@ -76,21 +76,22 @@ structure PInvU (s : GState R O) : Prop where
   p4 : ∀ ro ∈ s.checked, free s ro = true ∧ ro.1 ∉ s.detached ∧ (aget ro.1 s.spawned).isSome = true
   p6 : ∀ ro w, s.workers ro = some w → ro ∈ s.wlist
   p8 : s.wlist.Nodup
-
-/-- … plus `Healthy`: what makes every pending piece of work executable -/
-structure PInv (s : GState R O) : Prop extends PInvU s where
+  /-- every per-object toggle in the set belongs to a live worker on its way to `drop_toggle` -/
   p5 : ∀ ro ∈ s.objTog, ∃ w, s.workers ro = some w ∧ (w.pc = .queued ∨ w.pc = .indexed) ∧
         w.gated = true ∧ w.hasToggle = true
+
+/-- … plus `Healthy` (nothing leaked): what makes every pending piece of work executable -/
+structure PInv (s : GState R O) : Prop extends PInvU s where
   pl : s.leaked = []
   plk : s.leakedK = []
 
 theorem PInv.ofU {s : GState R O} (hu : PInvU s) (hh : Healthy s) : PInv s :=
-  { toPInvU := hu, p5 := hh.2.2, pl := hh.1, plk := hh.2.1 }
+  { toPInvU := hu, pl := hh.1, plk := hh.2 }
 
-theorem PInv.healthy {s : GState R O} (hp : PInv s) : Healthy s := ⟨hp.pl, hp.plk, hp.p5⟩
+theorem PInv.healthy {s : GState R O} (hp : PInv s) : Healthy s := ⟨hp.pl, hp.plk⟩
 
 theorem pinvU_init : PInvU (GState.init : GState R O) := by
-  refine ⟨?_, ?_, ?_, ?_, ?_, ?_⟩ <;> simp [GState.init]
+  refine ⟨?_, ?_, ?_, ?_, ?_, ?_, ?_⟩ <;> simp [GState.init]
 
 theorem free_of_none {s : GState R O} {ro : R × O} (h : s.workers ro = none) : free s ro = true := by
   simp [free, h]
@@ -106,10 +107,30 @@ theorem not_checked_of_pc {s : GState R O} (hp : PInvU s) {ro : R × O} {w : Wor
   rw [not_free_of_pc hw hpc] at this
   cases this
 
+theorem pc_of_objTog {s : GState R O} (hp : PInvU s) {ro : R × O} {w : Worker}
+    (hw : s.workers ro = some w) (ho : ro ∈ s.objTog) :
+    (w.pc = .queued ∨ w.pc = .indexed) ∧ w.gated = true ∧ w.hasToggle = true := by
+  obtain ⟨w', h1, h2⟩ := hp.p5 ro ho
+  rw [hw] at h1; cases h1; exact h2
+
+/-- an absent or idle worker holds no toggle -/
+theorem holds_false_of_free {s : GState R O} (hp : PInvU s) {ro : R × O} (hfree : free s ro = true) :
+    holds s ro = false := by
+  unfold holds
+  cases hw : s.workers ro with
+  | none => rfl
+  | some w =>
+    by_cases ho : ro ∈ s.objTog
+    · have h2 := (pc_of_objTog hp hw ho).1
+      have : free s ro = false := not_free_of_pc hw (by rcases h2 with h2 | h2 <;> simp [h2])
+      rw [hfree] at this; cases this
+    · simp [ho]
+
 /-- a pc change of one worker that is not being (re)started by its watcher -/
 theorem pinvU_setPc {s : GState R O} (hp : PInvU s) (ro : R × O) (w : Worker) (pc : Pc)
-    (hw : s.workers ro = some w) (hc : ro ∉ s.checked) : PInvU (setPc s ro w pc) := by
-  refine ⟨hp.p1, hp.p2, hp.p3, ?_, ?_, hp.p8⟩
+    (hw : s.workers ro = some w) (hc : ro ∉ s.checked)
+    (h5 : ro ∈ s.objTog → pc = .queued ∨ pc = .indexed) : PInvU (setPc s ro w pc) := by
+  refine ⟨hp.p1, hp.p2, hp.p3, ?_, ?_, hp.p8, ?_⟩
   · intro ro' hro'
     obtain ⟨a, b, c⟩ := hp.p4 ro' hro'
     refine ⟨?_, b, c⟩
@@ -121,8 +142,37 @@ theorem pinvU_setPc {s : GState R O} (hp : PInvU s) (ro : R × O) (w : Worker) (
     by_cases he : ro' = ro
     · subst he; exact hp.p6 ro' w hw
     · rw [upd_other _ _ _ he] at hw'; exact hp.p6 ro' w' hw'
+  · intro ro' hro'
+    obtain ⟨w', h1, h2, h3, h4⟩ := hp.p5 ro' hro'
+    by_cases he : ro' = ro
+    · subst he
+      rw [hw] at h1; cases h1
+      exact ⟨{ w with pc := pc }, by simp [setPc, upd_same], h5 hro', h3, h4⟩
+    · exact ⟨w', by simp [setPc, upd_other _ _ _ he, h1], h2, h3, h4⟩
 
-/-- the unconditional part is preserved by EVERY label (also `indexFail` and `die`) -/
+/-- dropping the worker's own toggle (if it has one) keeps the structural invariant -/
+theorem pinvU_dropOwn {s : GState R O} (hp : PInvU s) (ro : R × O) (w : Worker) :
+    PInvU ({ s with objTog := if w.hasToggle then sdel ro s.objTog else s.objTog } : GState R O) := by
+  refine ⟨hp.p1, hp.p2, hp.p3, hp.p4, hp.p6, hp.p8, ?_⟩
+  intro ro' hro
+  have hro' : ro' ∈ (if w.hasToggle = true then sdel ro s.objTog else s.objTog) := hro
+  by_cases ht : w.hasToggle = true
+  · rw [if_pos ht, mem_sdel] at hro'
+    exact hp.p5 ro' hro'.1
+  · rw [if_neg ht] at hro'
+    exact hp.p5 ro' hro'
+
+theorem not_own_after_drop {s : GState R O} (hp : PInvU s) {ro : R × O} {w : Worker}
+    (hw : s.workers ro = some w) :
+    ro ∉ (if w.hasToggle = true then sdel ro s.objTog else s.objTog) := by
+  intro hro
+  by_cases ht : w.hasToggle = true
+  · rw [if_pos ht, mem_sdel] at hro
+    exact absurd rfl hro.2
+  · rw [if_neg ht] at hro
+    exact absurd (pc_of_objTog hp hw hro).2.2 ht
+
+/-- the structural invariant is preserved by EVERY label (also `indexFail` and `die`) -/
 theorem step_pinvU {s s' : GState R O} (l : Label R O) (hi : Inv s) (hp : PInvU s)
     (h : step .none s l = some s') : PInvU s' := by
   cases l with
@@ -134,7 +184,7 @@ theorem step_pinvU {s s' : GState R O} (l : Label R O) (hi : Inv s) (hp : PInvU 
       simp only [Bool.and_eq_true, Bool.not_eq_true', decide_eq_true_eq, List.all_eq_true,
         Option.isNone_iff_eq_none] at hg
       subst h
-      exact ⟨by simp, ⟨fun p hp' => hg.2 p hp', hg.1.2⟩, hp.p3, hp.p4, hp.p6, hp.p8⟩
+      exact ⟨by simp, ⟨fun p hp' => hg.2 p hp', hg.1.2⟩, hp.p3, hp.p4, hp.p6, hp.p8, hp.p5⟩
     · cases h
   | spawn r =>
     simp only [step] at h
@@ -155,7 +205,7 @@ theorem step_pinvU {s s' : GState R O} (l : Label R O) (hi : Inv s) (hp : PInvU 
         rw [hpd] at hp2
         obtain ⟨hp2a, hp2b⟩ := hp2
         simp only [List.map_cons, List.nodup_cons] at hp2b
-        refine ⟨hp.p1, ⟨?_, hp2b.2⟩, ?_, ?_, hp.p6, hp.p8⟩
+        refine ⟨hp.p1, ⟨?_, hp2b.2⟩, ?_, ?_, hp.p6, hp.p8, hp.p5⟩
         · intro p hpr
           have h1 := hp2a p (by simp [hpr])
           have hne : r' ≠ p.1 := fun he => hp2b.1 (he ▸ List.mem_map_of_mem hpr)
@@ -189,7 +239,7 @@ theorem step_pinvU {s s' : GState R O} (l : Label R O) (hi : Inv s) (hp : PInvU 
     split at h
     · simp only [Option.some.injEq] at h
       subst h
-      exact ⟨by simp, hp.p2, hp.p3, hp.p4, hp.p6, hp.p8⟩
+      exact ⟨by simp, hp.p2, hp.p3, hp.p4, hp.p6, hp.p8, hp.p5⟩
     · cases h
   | die r =>
     simp only [step] at h
@@ -198,7 +248,7 @@ theorem step_pinvU {s s' : GState R O} (l : Label R O) (hi : Inv s) (hp : PInvU 
     | some ind =>
       simp only [hsp, Option.some.injEq] at h
       subst h
-      refine ⟨hp.p1, ⟨?_, hp.p2.2⟩, ?_, ?_, ?_, hp.p8⟩
+      refine ⟨hp.p1, ⟨?_, hp.p2.2⟩, ?_, ?_, ?_, hp.p8, ?_⟩
       · intro p hpr
         show aget p.1 (adel r s.spawned) = none
         rw [aget_adel]
@@ -232,6 +282,11 @@ theorem step_pinvU {s s' : GState R O} (l : Label R O) (hi : Inv s) (hp : PInvU 
         · simp [he] at hw'
         · simp only [he, if_false] at hw'
           exact hp.p6 ro w hw'
+      · intro ro hro
+        have hro' : ro ∈ s.objTog.filter (fun ro => !decide (ro.1 = r)) := hro
+        simp only [List.mem_filter, Bool.not_eq_true', decide_eq_false_iff_not] at hro'
+        obtain ⟨w', h1, h2⟩ := hp.p5 ro hro'.1
+        exact ⟨w', by show (if ro.1 = r then none else s.workers ro) = some w'; simp [hro'.2, h1], h2⟩
   | check r o on =>
     simp only [step] at h
     cases hsp : aget r s.spawned with
@@ -245,7 +300,7 @@ theorem step_pinvU {s s' : GState R O} (l : Label R O) (hi : Inv s) (hp : PInvU 
           have hison : s.isOn = true := by rw [← hg.2.1]; exact hon
           have hres : s.resTog = [] := ((isOn_iff s).1 hison).2.1
           subst h
-          refine ⟨hp.p1, hp.p2, ?_, ?_, hp.p6, hp.p8⟩
+          refine ⟨hp.p1, hp.p2, ?_, ?_, hp.p6, hp.p8, hp.p5⟩
           · intro r0 hr0
             have : r0 ∈ s.resTog := hr0
             simp [hres] at this
@@ -259,7 +314,7 @@ theorem step_pinvU {s s' : GState R O} (l : Label R O) (hi : Inv s) (hp : PInvU 
             · exact b h0
         · simp only [hon, Bool.false_eq_true, if_false, Option.some.injEq] at h
           subst h
-          refine ⟨hp.p1, hp.p2, hp.p3, ?_, hp.p6, hp.p8⟩
+          refine ⟨hp.p1, hp.p2, hp.p3, ?_, hp.p6, hp.p8, hp.p5⟩
           intro ro hro
           have hro' : ro ∈ sadd (r, o) s.checked := hro
           rw [mem_sadd] at hro'
@@ -275,10 +330,13 @@ theorem step_pinvU {s s' : GState R O} (l : Label R O) (hi : Inv s) (hp : PInvU 
     | some ind =>
       simp only [hsp] at h
       split at h
-      · split at h
-        · simp only [Option.some.injEq] at h
+      · rename_i hfree
+        split at h
+        · have hfree' : free s (r, o) = true := hfree
+          have hhold : holds s (r, o) = false := holds_false_of_free hp hfree'
+          simp only [Option.some.injEq, hhold, Bool.false_eq_true, if_false] at h
           subst h
-          refine ⟨hp.p1, hp.p2, hp.p3, ?_, ?_, nodup_sadd _ _ hp.p8⟩
+          refine ⟨hp.p1, hp.p2, hp.p3, ?_, ?_, nodup_sadd _ _ hp.p8, ?_⟩
           · intro ro hro
             have hro' : ro ∈ sdel (r, o) s.checked := hro
             rw [mem_sdel] at hro'
@@ -296,6 +354,30 @@ theorem step_pinvU {s s' : GState R O} (l : Label R O) (hi : Inv s) (hp : PInvU 
             · exact Or.inl he
             · rw [upd_other _ _ _ he] at hw''
               exact Or.inr (hp.p6 ro w hw'')
+          · intro ro hro
+            have hro' : ro ∈ (if (!decide (r ∈ s.detached) && ind) = true then sadd (r, o) s.objTog
+                               else s.objTog) := hro
+            have hold : ro ∈ s.objTog → ∃ w, upd s.workers (r, o) (some ⟨.queued, !decide (r ∈ s.detached),
+                !decide (r ∈ s.detached) && ind⟩) ro = some w ∧
+                (w.pc = .queued ∨ w.pc = .indexed) ∧ w.gated = true ∧ w.hasToggle = true := by
+              intro h0
+              obtain ⟨w', h1, h2, h3, h4⟩ := hp.p5 ro h0
+              have hne : ro ≠ (r, o) := by
+                intro he
+                subst he
+                have : free s (r, o) = false := not_free_of_pc h1 (by rcases h2 with h2 | h2 <;> simp [h2])
+                rw [hfree'] at this; cases this
+              exact ⟨w', by rw [upd_other _ _ _ hne]; exact h1, h2, h3, h4⟩
+            by_cases ht : (!decide (r ∈ s.detached) && ind) = true
+            · rw [if_pos ht, mem_sadd] at hro'
+              rcases hro' with h0 | h0
+              · subst h0
+                refine ⟨_, upd_same _ _ _, Or.inl rfl, ?_, ht⟩
+                simp only [Bool.and_eq_true] at ht
+                exact ht.1
+              · exact hold h0
+            · rw [if_neg ht] at hro'
+              exact hold hro'
         · cases h
       · cases h
   | listed r =>
@@ -308,7 +390,7 @@ theorem step_pinvU {s s' : GState R O} (l : Label R O) (hi : Inv s) (hp : PInvU 
       · cases h
       · simp only [Option.some.injEq] at h
         subst h
-        refine ⟨hp.p1, hp.p2, ?_, hp.p4, hp.p6, hp.p8⟩
+        refine ⟨hp.p1, hp.p2, ?_, hp.p4, hp.p6, hp.p8, hp.p5⟩
         intro r0 hr0
         have hr0' : r0 ∈ (if (ind && !decide (r ∈ s.detached)) = true then sdel r s.resTog else s.resTog) := hr0
         by_cases hc : (ind && !decide (r ∈ s.detached)) = true
@@ -326,8 +408,8 @@ theorem step_pinvU {s s' : GState R O} (l : Label R O) (hi : Inv s) (hp : PInvU 
       · rename_i hpc
         simp only [Option.some.injEq] at h
         have := pinvU_setPc (s := { s with indexedOnce := sadd (r, o) s.indexedOnce }) (ro := (r, o))
-          (w := w) (pc := .indexed) ⟨hp.p1, hp.p2, hp.p3, hp.p4, hp.p6, hp.p8⟩ hw
-          (not_checked_of_pc hp hw (by simp [hpc]))
+          (w := w) (pc := .indexed) ⟨hp.p1, hp.p2, hp.p3, hp.p4, hp.p6, hp.p8, hp.p5⟩ hw
+          (not_checked_of_pc hp hw (by simp [hpc])) (fun _ => Or.inr rfl)
         subst h; exact this
       · cases h
   | indexFail r o =>
@@ -339,7 +421,13 @@ theorem step_pinvU {s s' : GState R O} (l : Label R O) (hi : Inv s) (hp : PInvU 
       split at h
       · rename_i hpc
         simp only [Option.some.injEq] at h
-        have := pinvU_setPc (ro := (r, o)) (w := w) (pc := .idle) hp hw (not_checked_of_pc hp hw (by simp [hpc]))
+        have hp0 := pinvU_dropOwn hp (r, o) w
+        have := pinvU_setPc
+          (s := { s with objTog := if w.hasToggle then sdel (r, o) s.objTog else s.objTog,
+                         indexedOnce := sadd (r, o) s.indexedOnce })
+          (ro := (r, o)) (w := w) (pc := .idle)
+          ⟨hp0.p1, hp0.p2, hp0.p3, hp0.p4, hp0.p6, hp0.p8, hp0.p5⟩ hw
+          (not_checked_of_pc hp hw (by simp [hpc])) (fun ho => absurd ho (not_own_after_drop hp hw))
         subst h; exact this
       · cases h
   | drop r o =>
@@ -355,9 +443,8 @@ theorem step_pinvU {s s' : GState R O} (l : Label R O) (hi : Inv s) (hp : PInvU 
           rcases hg.1 with h1 | h1
           · simp [h1]
           · exact absurd h1.1 (by decide)
-        have := pinvU_setPc (s := { s with objTog := if w.hasToggle then sdel (r, o) s.objTog else s.objTog })
-          (ro := (r, o)) (w := w) (pc := .waiting) ⟨hp.p1, hp.p2, hp.p3, hp.p4, hp.p6, hp.p8⟩ hw
-          (not_checked_of_pc hp hw hpc)
+        have := pinvU_setPc (ro := (r, o)) (w := w) (pc := .waiting) (pinvU_dropOwn hp (r, o) w) hw
+          (not_checked_of_pc hp hw hpc) (fun ho => absurd ho (not_own_after_drop hp hw))
         subst h; exact this
       · cases h
   | pass r o =>
@@ -370,7 +457,8 @@ theorem step_pinvU {s s' : GState R O} (l : Label R O) (hi : Inv s) (hp : PInvU 
       · rename_i hg
         simp only [Option.some.injEq] at h
         have := pinvU_setPc (s := { s with everOn := true }) (ro := (r, o)) (w := w) (pc := .passed)
-          ⟨hp.p1, hp.p2, hp.p3, hp.p4, hp.p6, hp.p8⟩ hw (not_checked_of_pc hp hw (by simp [hg.1]))
+          ⟨hp.p1, hp.p2, hp.p3, hp.p4, hp.p6, hp.p8, hp.p5⟩ hw (not_checked_of_pc hp hw (by simp [hg.1]))
+          (fun ho => by have := (pc_of_objTog hp hw ho).1; simp [hg.1] at this)
         subst h; exact this
       · cases h
   | skip r o =>
@@ -383,6 +471,7 @@ theorem step_pinvU {s s' : GState R O} (l : Label R O) (hi : Inv s) (hp : PInvU 
       · rename_i hg
         simp only [Option.some.injEq] at h
         have := pinvU_setPc (ro := (r, o)) (w := w) (pc := .passed) hp hw (not_checked_of_pc hp hw (by simp [hg.1]))
+          (fun ho => by have := (pc_of_objTog hp hw ho).2.1; simp [hg.2] at this)
         subst h; exact this
       · cases h
   | handle r o =>
@@ -395,7 +484,8 @@ theorem step_pinvU {s s' : GState R O} (l : Label R O) (hi : Inv s) (hp : PInvU 
       · rename_i hg
         simp only [Option.some.injEq] at h
         have := pinvU_setPc (s := { s with handled := true }) (ro := (r, o)) (w := w) (pc := .handling)
-          ⟨hp.p1, hp.p2, hp.p3, hp.p4, hp.p6, hp.p8⟩ hw (not_checked_of_pc hp hw (by simp [hg]))
+          ⟨hp.p1, hp.p2, hp.p3, hp.p4, hp.p6, hp.p8, hp.p5⟩ hw (not_checked_of_pc hp hw (by simp [hg]))
+          (fun ho => by have := (pc_of_objTog hp hw ho).1; simp [hg] at this)
         subst h; exact this
       · cases h
   | finish r o =>
@@ -408,6 +498,7 @@ theorem step_pinvU {s s' : GState R O} (l : Label R O) (hi : Inv s) (hp : PInvU 
       · rename_i hg
         simp only [Option.some.injEq] at h
         have := pinvU_setPc (ro := (r, o)) (w := w) (pc := .idle) hp hw (not_checked_of_pc hp hw (by simp [hg]))
+          (fun ho => by have := (pc_of_objTog hp hw ho).1; simp [hg] at this)
         subst h; exact this
       · cases h
   | again r o =>
@@ -419,7 +510,7 @@ theorem step_pinvU {s s' : GState R O} (l : Label R O) (hi : Inv s) (hp : PInvU 
       split at h
       · rename_i hg
         simp only [Option.some.injEq] at h
-        have := pinvU_setPc (ro := (r, o)) (w := w) (pc := .queued) hp hw hg.2
+        have := pinvU_setPc (ro := (r, o)) (w := w) (pc := .queued) hp hw hg.2 (fun _ => Or.inl rfl)
         subst h; exact this
       · cases h
   | exit r o =>
@@ -429,9 +520,11 @@ theorem step_pinvU {s s' : GState R O} (l : Label R O) (hi : Inv s) (hp : PInvU 
     | some w =>
       simp only [hw] at h
       split at h
-      · simp only [Option.some.injEq] at h
+      · rename_i hg
+        have hhold : holds s (r, o) = false := holds_false_of_free hp (by simp [free, hw, hg])
+        simp only [Option.some.injEq, hhold, Bool.false_eq_true, if_false] at h
         subst h
-        refine ⟨hp.p1, hp.p2, hp.p3, ?_, ?_, hp.p8⟩
+        refine ⟨hp.p1, hp.p2, hp.p3, ?_, ?_, hp.p8, ?_⟩
         · intro ro hro
           obtain ⟨a, b, c⟩ := hp.p4 ro hro
           refine ⟨?_, b, c⟩
@@ -444,6 +537,13 @@ theorem step_pinvU {s s' : GState R O} (l : Label R O) (hi : Inv s) (hp : PInvU 
           by_cases he : ro = (r, o)
           · subst he; rw [upd_same] at hw''; cases hw''
           · rw [upd_other _ _ _ he] at hw''; exact hp.p6 ro w' hw''
+        · intro ro hro
+          obtain ⟨w', h1, h2, h3, h4⟩ := hp.p5 ro hro
+          have hne : ro ≠ (r, o) := by
+            intro he; subst he
+            rw [hw] at h1; cases h1
+            rcases h2 with h2 | h2 <;> simp [hg] at h2
+          exact ⟨w', by show upd s.workers (r, o) none ro = some w'; rw [upd_other _ _ _ hne]; exact h1, h2, h3, h4⟩
       · cases h
 
 theorem run_pinvU (ls : List (Label R O)) : ∀ {s s' : GState R O}, Inv s → PInvU s →
@@ -459,82 +559,18 @@ theorem run_pinvU (ls : List (Label R O)) : ∀ {s s' : GState R O}, Inv s → P
       simp only [hs] at h
       exact ih (step_inv l hi hs) (step_pinvU l hi hp hs) h
 
-theorem pc_of_objTog {s : GState R O} (hp : PInv s) {ro : R × O} {w : Worker}
-    (hw : s.workers ro = some w) (ho : ro ∈ s.objTog) :
-    (w.pc = .queued ∨ w.pc = .indexed) ∧ w.gated = true ∧ w.hasToggle = true := by
-  obtain ⟨w', h1, h2⟩ := hp.p5 ro ho
-  rw [hw] at h1; cases h1; exact h2
-
-/-- in a healthy state an absent or idle worker holds no toggle -/
-theorem holds_false_of_free {s : GState R O} (hp : PInv s) {ro : R × O} (hfree : free s ro = true) :
-    holds s ro = false := by
-  unfold holds
-  cases hw : s.workers ro with
-  | none => rfl
-  | some w =>
-    by_cases ho : ro ∈ s.objTog
-    · have h2 := (pc_of_objTog hp hw ho).1
-      have : free s ro = false := not_free_of_pc hw (by rcases h2 with h2 | h2 <;> simp [h2])
-      rw [hfree] at this; cases this
-    · simp [ho]
-
-/-- the labels of a cycle that reaches `drop_toggle` and of a watcher that stays alive -/
+/-- the labels of a watcher that stays alive -/
 def Label.benign : Label R O → Bool
-  | .indexFail _ _ => false
   | .die _ => false
   | _ => true
 
-/-- a worker's pc change keeps `Healthy`, when a toggle holder stays before `drop_toggle` -/
-theorem healthy_setPc {s : GState R O} (hh : Healthy s) (ro : R × O) (w : Worker) (pc : Pc)
-    (hw : s.workers ro = some w) (h5 : ro ∈ s.objTog → pc = .queued ∨ pc = .indexed) :
-    Healthy (setPc s ro w pc) := by
-  refine ⟨hh.1, hh.2.1, ?_⟩
-  intro ro' hro'
-  obtain ⟨w', h1, h2, h3, h4⟩ := hh.2.2 ro' hro'
-  by_cases he : ro' = ro
-  · subst he
-    rw [hw] at h1; cases h1
-    exact ⟨{ w with pc := pc }, by simp [setPc, upd_same], h5 hro', h3, h4⟩
-  · exact ⟨w', by simp [setPc, upd_other _ _ _ he, h1], h2, h3, h4⟩
-
-/-- `Healthy` is preserved by every benign label -/
+/-- nothing leaks on a benign label -/
 theorem step_healthy {s s' : GState R O} (l : Label R O) (hp : PInv s)
     (h : step .none s l = some s') (hb : l.benign = true) : Healthy s' := by
-  have hh := hp.healthy
+  have hl := hp.pl
+  have hk := hp.plk
   cases l with
-  | indexFail r o => cases hb
   | die r => cases hb
-  | spawnBegin kinds =>
-    simp only [step] at h
-    split at h
-    · simp only [Option.some.injEq] at h; subst h; exact hh
-    · cases h
-  | spawn r =>
-    simp only [step] at h
-    split at h
-    · cases h
-    · split at h
-      · simp only [Option.some.injEq] at h; subst h; exact hh
-      · cases h
-  | spawnEnd =>
-    simp only [step] at h
-    split at h
-    · simp only [Option.some.injEq] at h; subst h; exact hh
-    · cases h
-  | check r o on =>
-    simp only [step] at h
-    split at h
-    · split at h
-      · split at h <;> (simp only [Option.some.injEq] at h; subst h; exact hh)
-      · cases h
-    · cases h
-  | listed r =>
-    simp only [step] at h
-    split at h
-    · split at h
-      · cases h
-      · simp only [Option.some.injEq] at h; subst h; exact hh
-    · cases h
   | arrive r o gated hasToggle =>
     simp only [step] at h
     cases hsp : aget r s.spawned with
@@ -544,139 +580,10 @@ theorem step_healthy {s s' : GState R O} (l : Label R O) (hp : PInv s)
       split at h
       · rename_i hfree
         split at h
-        · have hfree' : free s (r, o) = true := hfree
-          have hhold : holds s (r, o) = false := holds_false_of_free hp hfree'
+        · have hhold : holds s (r, o) = false := holds_false_of_free hp.toPInvU hfree
           simp only [Option.some.injEq, hhold, Bool.false_eq_true, if_false] at h
-          subst h
-          refine ⟨hh.1, hh.2.1, ?_⟩
-          intro ro hro
-          have hro' : ro ∈ (if (!decide (r ∈ s.detached) && ind) = true then sadd (r, o) s.objTog
-                             else s.objTog) := hro
-          have hold : ro ∈ s.objTog → ∃ w, upd s.workers (r, o) (some ⟨.queued, !decide (r ∈ s.detached),
-              !decide (r ∈ s.detached) && ind⟩) ro = some w ∧
-              (w.pc = .queued ∨ w.pc = .indexed) ∧ w.gated = true ∧ w.hasToggle = true := by
-            intro h0
-            obtain ⟨w', h1, h2, h3, h4⟩ := hp.p5 ro h0
-            have hne : ro ≠ (r, o) := by
-              intro he
-              subst he
-              have : free s (r, o) = false := not_free_of_pc h1 (by rcases h2 with h2 | h2 <;> simp [h2])
-              rw [hfree'] at this; cases this
-            exact ⟨w', by rw [upd_other _ _ _ hne]; exact h1, h2, h3, h4⟩
-          by_cases ht : (!decide (r ∈ s.detached) && ind) = true
-          · rw [if_pos ht, mem_sadd] at hro'
-            rcases hro' with h0 | h0
-            · subst h0
-              refine ⟨_, upd_same _ _ _, Or.inl rfl, ?_, ht⟩
-              simp only [Bool.and_eq_true] at ht
-              exact ht.1
-            · exact hold h0
-          · rw [if_neg ht] at hro'
-            exact hold hro'
+          subst h; exact ⟨hl, hk⟩
         · cases h
-      · cases h
-  | index r o =>
-    simp only [step] at h
-    cases hw : s.workers (r, o) with
-    | none => simp [hw] at h
-    | some w =>
-      simp only [hw] at h
-      split at h
-      · simp only [Option.some.injEq] at h
-        have := healthy_setPc (s := { s with indexedOnce := sadd (r, o) s.indexedOnce }) (ro := (r, o))
-          (w := w) (pc := .indexed) hh hw (fun _ => Or.inr rfl)
-        subst h; exact this
-      · cases h
-  | drop r o =>
-    simp only [step] at h
-    cases hw : s.workers (r, o) with
-    | none => simp [hw] at h
-    | some w =>
-      simp only [hw] at h
-      split at h
-      · simp only [Option.some.injEq] at h
-        have hh0 : Healthy ({ s with objTog := if w.hasToggle then sdel (r, o) s.objTog else s.objTog } : GState R O) := by
-          refine ⟨hh.1, hh.2.1, ?_⟩
-          intro ro hro
-          have hro' : ro ∈ (if w.hasToggle = true then sdel (r, o) s.objTog else s.objTog) := hro
-          by_cases ht : w.hasToggle = true
-          · rw [if_pos ht, mem_sdel] at hro'
-            exact hp.p5 ro hro'.1
-          · rw [if_neg ht] at hro'
-            exact hp.p5 ro hro'
-        have := healthy_setPc (ro := (r, o)) (w := w) (pc := .waiting) hh0 hw
-          (by
-            intro hro
-            have hro' : (r, o) ∈ (if w.hasToggle = true then sdel (r, o) s.objTog else s.objTog) := hro
-            by_cases ht : w.hasToggle = true
-            · rw [if_pos ht, mem_sdel] at hro'
-              exact absurd rfl hro'.2
-            · rw [if_neg ht] at hro'
-              exact absurd (pc_of_objTog hp hw hro').2.2 ht)
-        subst h; exact this
-      · cases h
-  | pass r o =>
-    simp only [step] at h
-    cases hw : s.workers (r, o) with
-    | none => simp [hw] at h
-    | some w =>
-      simp only [hw] at h
-      split at h
-      · rename_i hg
-        simp only [Option.some.injEq] at h
-        have := healthy_setPc (s := { s with everOn := true }) (ro := (r, o)) (w := w) (pc := .passed) hh hw
-          (fun ho => by have := (pc_of_objTog hp hw ho).1; simp [hg.1] at this)
-        subst h; exact this
-      · cases h
-  | skip r o =>
-    simp only [step] at h
-    cases hw : s.workers (r, o) with
-    | none => simp [hw] at h
-    | some w =>
-      simp only [hw] at h
-      split at h
-      · rename_i hg
-        simp only [Option.some.injEq] at h
-        have := healthy_setPc (ro := (r, o)) (w := w) (pc := .passed) hh hw
-          (fun ho => by have := (pc_of_objTog hp hw ho).2.1; simp [hg.2] at this)
-        subst h; exact this
-      · cases h
-  | handle r o =>
-    simp only [step] at h
-    cases hw : s.workers (r, o) with
-    | none => simp [hw] at h
-    | some w =>
-      simp only [hw] at h
-      split at h
-      · rename_i hg
-        simp only [Option.some.injEq] at h
-        have := healthy_setPc (s := { s with handled := true }) (ro := (r, o)) (w := w) (pc := .handling) hh hw
-          (fun ho => by have := (pc_of_objTog hp hw ho).1; simp [hg] at this)
-        subst h; exact this
-      · cases h
-  | finish r o =>
-    simp only [step] at h
-    cases hw : s.workers (r, o) with
-    | none => simp [hw] at h
-    | some w =>
-      simp only [hw] at h
-      split at h
-      · rename_i hg
-        simp only [Option.some.injEq] at h
-        have := healthy_setPc (ro := (r, o)) (w := w) (pc := .idle) hh hw
-          (fun ho => by have := (pc_of_objTog hp hw ho).1; simp [hg] at this)
-        subst h; exact this
-      · cases h
-  | again r o =>
-    simp only [step] at h
-    cases hw : s.workers (r, o) with
-    | none => simp [hw] at h
-    | some w =>
-      simp only [hw] at h
-      split at h
-      · simp only [Option.some.injEq] at h
-        have := healthy_setPc (ro := (r, o)) (w := w) (pc := .queued) hh hw (fun _ => Or.inl rfl)
-        subst h; exact this
       · cases h
   | exit r o =>
     simp only [step] at h
@@ -686,18 +593,18 @@ theorem step_healthy {s s' : GState R O} (l : Label R O) (hp : PInv s)
       simp only [hw] at h
       split at h
       · rename_i hg
-        have hhold : holds s (r, o) = false := holds_false_of_free hp (by simp [free, hw, hg])
+        have hhold : holds s (r, o) = false := holds_false_of_free hp.toPInvU (by simp [free, hw, hg])
         simp only [Option.some.injEq, hhold, Bool.false_eq_true, if_false] at h
-        subst h
-        refine ⟨hh.1, hh.2.1, ?_⟩
-        intro ro hro
-        obtain ⟨w', h1, h2, h3, h4⟩ := hp.p5 ro hro
-        have hne : ro ≠ (r, o) := by
-          intro he; subst he
-          rw [hw] at h1; cases h1
-          rcases h2 with h2 | h2 <;> simp [hg] at h2
-        exact ⟨w', by show upd s.workers (r, o) none ro = some w'; rw [upd_other _ _ _ hne]; exact h1, h2, h3, h4⟩
+        subst h; exact ⟨hl, hk⟩
       · cases h
+  | spawnBegin kinds | spawn r | spawnEnd | check r o on | listed r | index r o | indexFail r o | drop r o
+  | pass r o | skip r o | handle r o | finish r o | again r o =>
+    simp only [step] at h
+    (repeat' split at h) <;>
+      first
+      | (simp only [Option.some.injEq] at h; subst h; exact ⟨hl, hk⟩)
+      | cases h
+      | simp at h
 
 /-! #### progress -/
 
